@@ -132,10 +132,12 @@ func c15Probe(maxLen int) func(w *mintops.W) {
 }
 
 func c15OwnSpecs(quick bool) []*bfs.Spec {
+	// state checks over more than a thousand Ys with the used ones at the front, in the middle and at the end
+	large := &bfs.Spec{Prop: "C15", Name: "C15-large-queries", Cfg: mintops.Config{Fee: 0}, Init: largeRequestHistory(), Depth: 0}
 	if quick {
-		return []*bfs.Spec{{Prop: "C15", Name: "C15-seq-q", Cfg: mintops.Config{Fee: 0}, Init: []string{"fund|8,8,8"}, Menu: c15Menu, Probe: c15Probe(2), Depth: 4}}
+		return []*bfs.Spec{{Prop: "C15", Name: "C15-seq-q", Cfg: mintops.Config{Fee: 0}, Init: []string{"fund|8,8,8"}, Menu: c15Menu, Probe: c15Probe(2), Depth: 4}, large}
 	}
-	return []*bfs.Spec{
+	return []*bfs.Spec{large,
 		{Prop: "C15", Name: "C15-seq-fee0", Cfg: mintops.Config{Fee: 0}, Init: []string{"fund|8,8,8"}, Menu: c15Menu, Probe: c15Probe(3), Depth: 5},
 		{Prop: "C15", Name: "C15-seq-fee100", Cfg: mintops.Config{Fee: 100}, Init: []string{"fund|8,8,8"}, Menu: c15Menu, Probe: c15Probe(2), Depth: 4},
 	}
